@@ -200,13 +200,7 @@ func (b *seqBox[T]) CheckState() *Viol {
 		return viol(tag("C15"), "invariant", "String() = %q does not begin with %q", s, b.a.name)
 	}
 	// observers are pure
-	for _, r := range b.Readers() {
-		r := r
-		if v := pureCall(CanonOpts{}, b.a.obj, r.Name, tag("C05"), func() { r.Call() }); v != nil {
-			return v
-		}
-	}
-	return nil
+	return pureAll(CanonOpts{}, b.a.obj, b.Readers(), tag("C05"))
 }
 
 // ---- Box -----------------------------------------------------------------------
